@@ -297,6 +297,20 @@ def rule_pub(rep, S, R="C02.pub"):
                 cons = "adjust_size(%s)" % ir.show(arg)[:40]
                 if neg:
                     rep.holds(R, lab, cons, where=d.where(n), detail="shrinks")
+                    continue
+                # a difference whose sign is not visible in its spelling: not a growth that could be named
+                inner = ir.strip(ir.ekids(n)[1])
+                while inner.get("kind") in ("CXXStaticCastExpr", "CXXFunctionalCastExpr", "CStyleCastExpr") and ir.ekids(inner):
+                    inner = ir.strip(ir.ekids(inner)[-1])
+                hops = 0
+                while inner.get("kind") == "DeclRefExpr" and (inner.get("referencedDecl") or {}).get("name") in linit and hops < 4:
+                    inner = ir.strip(linit[(inner.get("referencedDecl") or {}).get("name")])
+                    hops += 1
+                ti = ir.sx(inner)
+                if ti[0] == "un" and ti[1] == "-":
+                    rep.holds(R, lab, cons, where=d.where(n), detail="shrinks")
+                elif ti[0] == "bin" and ti[1] == "-" and "unsigned" not in ir.wtype(inner) and "size_t" not in ir.qtype(inner):
+                    rep.inconclusive(R, lab, cons, where=d.where(n), detail="the sign of the difference `%s` is not decided here" % ir.show(ti)[:60])
                 else:
                     rep.violates(R, lab, cons, where=d.where(n), detail="grows the length without a capacity check")
 
